@@ -42,7 +42,10 @@ def run_c01(ctx):
     execs = []
     simexec.bind(t, ctx.stats, log=execs, default={"boundary": "process", "auto_workers": 3})
     sweep = G.gen_sweep(t, max_n=1024, kinds=KINDS, allow_cases=t.flag(1, 4, "with-cases"),
-                        max_args=5, allow_mixed=True)
+                        max_args=5, allow_mixed=True,
+                        # (the swept function's arguments may be called anything, also what
+                        # the library itself calls its own parameters)
+                        arg_pool=G.ARG_POOL + ["fn", "executor"])
     kind = sweep.kind
     argnames = sweep.case_args + [a for a, _ in sweep.combos] + list(sweep.constants)
     fn = calllog.make_fn(kind, argnames)
